@@ -17,48 +17,48 @@ CHECKS = {
             'implementations -> SUM merge: a user-visible integer op can wrap only if a link maps checked to '
             'unchecked. Not decided: that operators compute the right number.', '5/C06'),
     'C08': ('MIR dominance / must-pass-through / dataflow rules on the write-ahead protocol '
-            '(ORD-3/4/5, FLW-3/4/5, LCK-1/2)',
+            '(ORD-3/4/5/10, FLW-3/4/5/17/18, LCK-1/2, LIT-3) on anchors with their helpers spliced in (return-variant threading)',
             'Decides on every CFG path the structural clauses acknowledged-data durability rests on: join before '
             'ack, atomic blob replace, no dropped storage error, flush order, cursor values, replay/delete split, '
             'ingestion/flush critical sections. Not decided: value equality of replayed content.', '5/C08'),
-    'C09': ('MIR ordering + who-may-call rules over file effects (ORD-4/5, FLW-3/5/6, WHO-1/2, PAN-1)',
+    'C09': ('MIR ordering + who-may-call rules over file effects (ORD-4/5/10/11, FLW-3/5/6, WHO-1/2, PAN-1, LIT-3), helpers spliced in',
             'Decides that every crash point lies between effects whose order leaves old-or-new catalogue '
             'consistent, that only the blob backend creates/removes files, that recovery replays only *.wal and '
             'its jobs report failures as values. Not decided: the behaviour of a recovery run.', '5/C09'),
-    'C10': ('static lock analysis over MIR: guard tracking, must-hold sets (LCK-1,3..7), OPT-1',
+    'C10': ('static lock analysis over MIR: guard tracking, must-hold sets (LCK-1,3..7), offset-origin dataflow (FLW-16), OPT-1, FLW-7',
             'Decides the lock discipline of the snapshot protocol for all interleavings (exclusion is proved, '
             'not sampled). Not decided: that results equal a prefix at value level.', '5/C10'),
     'C11': ('lock-order graph, blocking-under-lock, condvar pairing, pool-job reply rules, error-as-value '
-            'and arithmetic rules over MIR (LCK-8/9, CND-1, JOB-1, ERV-1/2, FLW-1, OPT-1, CHK-7)',
+            'and arithmetic rules over MIR (LCK-8/9/10, CND-1/2, JOB-1, ERV-1/2, FLW-1, FLW-7, OPT-1, CHK-7, ORD-13 limit-zero)',
             'Decides deadlock-freedom clauses and the no-damage clauses of failing requests. Not decided: '
             'panic-freedom of the whole operator engine, running-time bounds.', '5/C11'),
     'C12': ('panic-source enumeration over MIR with recognised safe idioms + exception table (PAN-2/3), '
-            'ERV-2, FLW-1, FLW-8',
+            'ERV-2, FLW-1, FLW-8, LCK-10, ORD-13 limit-zero',
             'Decides that the text -> task shell has no explicit panic source and produces one column per select '
             'item. Not decided: panics inside sqlparser, value well-formedness.', '5/C12'),
-    'C18': ('MIR lock/dataflow/order rules: LCK-1, FLW-13/14/15, ORD-4/5, CND-1',
+    'C18': ('MIR lock/dataflow/order rules: LCK-1, FLW-13/14/15/17/19, ORD-4/5, CND-1/2, LIT-3',
             'Decides reset+notify under the ingestion lock, that everything to delete reaches its delete call '
             'after the catalogue write, that store leaves no temp file, and the flush trigger. Not decided: the '
             'actual directory listing over long histories.', '5/C18'),
 }
 
 CHECKS.update({
-    'C01': ('syntax-tree width/tag table rules over the column builders (WID-1/2, TBL-1, LIT-1)',
+    'C01': ('syntax-tree width/tag table rules over the column builders (WID-1/2, TBL-1, LIT-1), MIR cast/dataflow rule on the f32 narrowing test (FLT-2), null-map forwarding (NUL-1)',
             'Narrow claim: decides necessary structural conditions of the round trip (bound / element type / '
-            'tag agreement per branch, identity tags, NULL markers). The round trip itself quantifies over '
+            'tag agreement per branch, identity tags, NULL markers, exact f32 round-trip test, null map never ignored by the builder). The round trip itself quantifies over '
             'runtime values and is NOT decided.', '5/C01'),
     'C03': ('MIR order rule + syntax-tree semantic tables (ORD-1, TBL-2, TBL-3)',
             'Narrow claim: sorted dictionary before index assignment, codec-op property tables one-sidedly '
             'safe, comparison registry rows mutually consistent. Comparison results, constant translation, '
             'NULL semantics NOT decided.', '5/C03'),
-    'C05': ('interprocedural MIR taint of LIMIT/OFFSET values (FLW-1), who-reads-offset (ORD-2)',
+    'C05': ('interprocedural MIR taint of LIMIT/OFFSET values (FLW-1), who-reads-offset (ORD-2), MIR structure of the multi-key sort and the top-n guard (ORD-13), abstract evaluation of the comparator syntax trees on all orderings of two keys (TBL-13)',
             'Narrow claim: no unchecked arithmetic on the limit sentinel / offset and single application of the '
-            'offset. Sort order, NULL placement, top-n and merge NOT decided.', '5/C05'),
-    'C07': ('sibling-table comparison of the decode routines (TBL-4/5), MIR coverage rule (FLW-2), OPT-1, LIT-2',
+            'offset, stable last-to-first multi-key sort, top-n only for one key and never with n = 0, comparator impls mutually consistent incl. NULL placement for string keys. The order produced by the sort operators and the merge of sorted partial results NOT decided.', '5/C05'),
+    'C07': ('sibling-table comparison of the decode routines incl. null-map and input-from-stack clauses (TBL-4/5), MIR coverage rule (FLW-2), OPT-1, LIT-2, NUL-1',
             'Narrow claim: the compaction-only decode routine handles what its siblings handle, compaction '
-            'covers all names/parts/types, flush never unwraps an evictable payload. Value preservation of '
+            'covers all names/parts/types, flush never unwraps an evictable payload, null maps survive decode and the column builder. Value preservation of '
             're-encoding NOT decided.', '5/C07'),
-    'C13': ('MIR order/lock rules + literal agreement (ORD-7, TBL-6, WHO-3, LIT-2, FLW-2)',
+    'C13': ('MIR order/lock rules + literal agreement (ORD-7, ORD-12, TBL-6, WHO-3, LIT-2, FLW-2)',
             'Narrow claim: catalogue rows travel in the same segment, ingestion siblings agree, only they '
             'write the name set, catalogue literals agree. Exactly-once listing over histories NOT decided.',
             '5/C13'),
@@ -68,18 +68,17 @@ CHECKS.update({
             'over exactly the returned bytes, that every file goes through the envelope and that the three '
             'hand-written codecs compose to the identity on variants/members/fields. Structural equality for '
             'all values NOT decided.', '5/C14'),
-    'C15': ('MIR dataflow on path construction (FLW-10/11), constant folding of the name predicates on the '
+    'C15': ('MIR dataflow on path construction and key derivation (FLW-10/11), constant folding of the name predicates on the '
             'forbidden characters (SET-1/2), routing-table siblings (ORD-8)',
             'Narrow claim: paths are built only from sanitised parts, predicates exclude separators/NUL and '
             'bound the length, modified names get the digest, columns sorted before grouping. The range lookup '
             'itself NOT decided.', '5/C15'),
-    'C16': ('syntax-tree codec/width tables (TBL-8/10, WID-3), MIR widening rule (FLW-12), LIT-1',
+    'C16': ('syntax-tree codec/width tables (TBL-8/10/12, WID-3), MIR widening rule (FLW-12), MIR float-comparison rule on the XOR codec (FLT-1), LIT-1',
             'Narrow claim: variants map to members the reader maps back, each narrow layout guarded by its own '
-            'type bounds, double-delta only when first differences fit i64, widen before subtracting. XOR float '
-            'codec and delta arithmetic NOT decided.', '5/C16'),
-    'C17': ('MIR rules on the HTTP handlers (ERV-3, ORD-9) + JSON/type-signature tables (TBL-11)',
+            'type bounds, double-delta only when first differences fit i64, widen before subtracting, XOR stream field widths/biases agree and the codec compares bit patterns only. The XOR state machine and delta arithmetic NOT decided.', '5/C16'),
+    'C17': ('MIR rules on the HTTP handlers (ERV-3, ORD-9, ORD-14) + JSON/type-signature tables (TBL-11)',
             'Narrow claim: every query handler maps errors to a non-2xx response, insert answers 200 only after '
-            'ingestion completed, JSON renderers and type-signature branches agree. Value equality between '
+            'ingestion completed, multi-query answers gathered in request order, JSON renderers and type-signature branches agree. Value equality between '
             'HTTP and embedded results NOT decided.', '5/C17'),
 })
 
